@@ -101,46 +101,93 @@ def valid(m):
         return f"{type(e).__name__}: {str(e)[:300]}"
 
 
-def run_both(m, feeds):
-    """(kind, outputs) for onnx.reference and onnxruntime; kind 'ok' or 'err:<type>'."""
-    res = []
-    for name, fn in (("ref", base.ref_run), ("ort", base.ort_run)):
+def run_all(m, feeds_list):
+    """{engine: [(kind, outputs) per feed]}; one session per engine, kind 'ok' or 'err:<type>:<msg>'."""
+    import onnx.reference
+    import onnxruntime as ort
+    res = {}
+    for eng in ("ref", "ort"):
+        out = []
         try:
-            res.append((name, "ok", fn(m, feeds)))
+            if eng == "ref":
+                sess = onnx.reference.ReferenceEvaluator(m)
+            else:
+                so = ort.SessionOptions()
+                so.graph_optimization_level = ort.GraphOptimizationLevel.ORT_DISABLE_ALL
+                so.log_severity_level = 4
+                so.intra_op_num_threads = 1
+                so.inter_op_num_threads = 1
+                sess = ort.InferenceSession(m.SerializeToString(), so, providers=["CPUExecutionProvider"])
         except Exception as e:  # noqa: BLE001
-            res.append((name, "err:" + type(e).__name__ + ":" + str(e)[:200], None))
+            res[eng] = [("err:load:" + type(e).__name__ + ":" + str(e)[:200], None)] * len(feeds_list)
+            continue
+        for feeds in feeds_list:
+            try:
+                out.append(("ok", sess.run(None, feeds)))
+            except Exception as e:  # noqa: BLE001
+                out.append(("err:" + type(e).__name__ + ":" + str(e)[:200], None))
+        res[eng] = out
     return res
+
+
+def run_both(m, feeds):
+    r = run_all(m, [feeds])
+    return [(eng, r[eng][0][0], r[eng][0][1]) for eng in ("ref", "ort")]
 
 
 def oracle(ctx, key, what, host, new, feeds_list, replay, exact=True, engines=("ref", "ort")):
     """Direct oracle: host vs rewritten on every feed on both engines + checker on the rewritten model.
 
     An engine on which the *host* itself fails is skipped for that feed (host_ok is a precondition).
-    Returns True when the property held on every executed comparison."""
+    All manifestations (different values / shape / dtype, rewritten model fails to run, rewritten model rejected by
+    onnx.checker) are reported under the one `key` of the input class.
+    Returns (property held on every executed comparison, number of comparisons)."""
     good = True
     err = valid(new)
     if err is not None and valid(host) is None:
-        ctx.violation(key + ":invalid", what + f": rewritten model rejected by onnx.checker ({err})", dict(replay, checker=err))
+        ctx.violation(key, what + f": rewritten model rejected by onnx.checker ({err})", dict(replay, manifestation="invalid", checker=err))
         good = False
     compared = 0
-    for feeds in feeds_list:
-        a = run_both(host, feeds)
-        b = run_both(new, feeds)
-        for (eng, ka, oa), (_, kb, ob) in zip(a, b):
-            if eng not in engines or ka != "ok":
+    a = run_all(host, feeds_list)
+    b = run_all(new, feeds_list)
+    for eng in engines:
+        for feeds, (ka, oa), (kb, ob) in zip(feeds_list, a[eng], b[eng]):
+            if ka != "ok":
                 continue
             compared += 1
+            fd = {k: np.asarray(v).tolist() for k, v in feeds.items()}
             if kb != "ok":
-                ctx.violation(key + ":rewritten-fails", what + f": original runs on {eng}, rewritten model fails ({kb})",
-                              dict(replay, engine=eng, feeds={k: np.asarray(v).tolist() for k, v in feeds.items()}, error=kb))
+                ctx.violation(key, what + f": original runs on {eng}, rewritten model fails ({kb})",
+                              dict(replay, manifestation="rewritten-fails", engine=eng, feeds=fd, error=kb))
                 good = False
             elif not base.same_outputs(oa, ob, exact=exact):
                 ctx.violation(key, what + f": rewritten model differs from original on {eng}",
-                              dict(replay, engine=eng, feeds={k: np.asarray(v).tolist() for k, v in feeds.items()},
+                              dict(replay, manifestation="differs", engine=eng, feeds=fd,
                                    original=[np.asarray(o).tolist() for o in oa], original_shape=[list(np.asarray(o).shape) for o in oa],
                                    rewritten=[np.asarray(o).tolist() for o in ob], rewritten_shape=[list(np.asarray(o).shape) for o in ob]))
                 good = False
+    if compared == 0:
+        ctx.cover(**{"oracle_skipped_" + key.split(":")[1]: ctx.coverage.get("oracle_skipped_" + key.split(":")[1], 0) + 1})
     return good, compared
+
+
+def overridable_probe(ctx, fam, what, host, rules, feeds_list):
+    """An initializer that is also a graph input is only a default value: a caller may feed something else.
+    `host` lists the operand both as input and as initializer; `feeds_list` overrides it.  If the rule fires the
+    rewritten model must still agree on those feeds."""
+    new = apply_rule(host, rules)
+    ctx.case((fam, "overridable-initializer-operand", ops(new) != ops(host)))
+    if ops(new) == ops(host) and len(new.graph.initializer) == len(host.graph.initializer):
+        return
+    oracle(ctx, f"C05:{fam}:overridable-initializer-operand", what + " with the constant operand being an overridable initializer (also a graph input)",
+           host, new, feeds_list, {"family": fam, "overridable_operand": True})
+
+
+def guard(ctx, name, fired, minimum):
+    """The correspondence only constrains instances on which the rule fired: keep it from going vacuous."""
+    ctx.obligation(f"non-vacuity {name}: the rule fired on {fired} generated instances (>= {minimum} required)", fired >= minimum)
+    if fired < minimum:
+        ctx.tie_broken("correspondence", f"{name}:vacuous", f"the rule fired on only {fired} generated instances; the generators no longer reach it")
 
 
 def int_data(shape, dtype, k=0):
